@@ -54,7 +54,7 @@ pub fn walk(ctx: &Ctx, l: &mut Local, p: &Params, site: Site, dates: &[NaiveDate
                 win.clear();
             }
         }
-        let r = prayer_times_dt(p, site.loc(), d, None);
+        let r = pt(p, site.loc(), d, None);
         l.evals += 1;
         win.push((d, r));
         if win.len() > 3 {
